@@ -759,7 +759,7 @@ def getattr_(fr, base, attr, node):
         b2 = I.simp_fin(base)
         if not isinstance(b2, AFin):
             return getattr_(fr, b2, attr, node)
-        if all(isinstance(t, (list, tuple)) for t in base.table):
+        if all(isinstance(t, (list, tuple, dict)) for t in base.table):
             # a container selected by a few input bits: its methods are analysed per assignment of those bits
             raise NeedCases(sorted(b2.atoms))
         try:
@@ -1788,6 +1788,11 @@ def method(fr, base, name, args, kw, n):
             return ABits(base.get(), "list")
         if name == "copy":
             return ABits(base.get(), "np")
+        if name in ("any", "all", "sum", "count") and not args and not kw:
+            # read-only reductions of a row / column view: those of the bits it shows
+            if name == "sum":
+                return APop(I.simp_bits(base.get())) if not all(isinstance(x, F) and x.is_const for x in I.simp_bits(base.get())) else sum(x.c for x in I.simp_bits(base.get()))
+            return bits_method(fr, ABits(base.get(), "np"), name, args, kw, n)
         raise Abort(f"view method {name}")
     if isinstance(base, ATable):
         if name == "fill":
@@ -1940,6 +1945,11 @@ def method(fr, base, name, args, kw, n):
             except (ValueError, IndexError) as e:
                 raise PathRaise(type(e).__name__, str(e))
         if isinstance(base, dict) and name in ("items", "keys", "values", "get", "update", "pop", "setdefault", "copy"):
+            if name in ("get", "pop", "setdefault") and args and isinstance(args[0], AFin):
+                k_ = I.simp_fin(args[0])
+                if isinstance(k_, AFin):
+                    raise NeedCases(sorted(k_.atoms))      # a key selected by a few input bits: per assignment of those bits
+                args = [k_] + list(args[1:])
             if name == "get" and args and is_abs(args[0]):
                 args = [concretise(fr, args[0])] + list(args[1:])
             if name == "get" and args and is_abs(args[0]):
@@ -2014,6 +2024,10 @@ def ident_key(k) -> bool:
 
 def subscript_dict_abs(fr, d, key, n):
     I = fr.I
+    if isinstance(key, AFin):
+        key = I.simp_fin(key)
+        if isinstance(key, AFin):
+            raise NeedCases(sorted(key.atoms))          # a key selected by a few input bits: per assignment of those bits
     ck = concretise(fr, key)
     if not is_abs(ck) or ident_key(ck):
         try:
@@ -2149,7 +2163,7 @@ def bits_method(fr, b: ABits, name, args, kw, n):
         return I.opaque("to01()", notnone=True)
     if name == "decode":
         return I.opaque("decode()", notnone=True)
-    if name in ("any", "all") and not args and b.kind != "bytes":
+    if name in ("any", "all") and not args and not kw and b.kind != "bytes":
         # bitarray.any() / .all(): "not all zero" / "all one" — a conjunction of linear equalities, decided by trace partitioning
         forms = I.simp_bits(b.items)
         if not forms:
@@ -2431,6 +2445,9 @@ def external(fr, name, args, kw, n):
         if len(shape) == 1:
             return ABits([fill or OB("uninitialised")] * shape[0], "np")
         return ATable(shape[0], shape[1], fill)
+    if name in ("numpy.zeros_like", "numpy.ones_like") and args and isinstance(args[0], (ABits, AView)) and not (set(kw) - {"dtype"}):
+        nbits = len(args[0].items) if isinstance(args[0], ABits) else len(args[0].get())
+        return ABits([cbit(1 if name.endswith("ones_like") else 0) for _ in range(nbits)], "np")
     if name in ("numpy.array", "numpy.asarray", "numpy.copy"):
         v = args[0]
         if isinstance(v, ABits):
